@@ -425,7 +425,7 @@ func verifHashAgree(a, b Object) bool {
 //@ ensures[C16.string.slice.ok] typed ==> (result1 == nil) == (0 <= ns && 0 <= ne && ns <= ne && ns <= size - 1 && ne <= size)
 
 //@ func (*String).GetItem
-//@ props C16
+//@ props C16 C01
 //@ safety
 //@ requires s != nil && key != nil && ref(key) != nil
 //@ let size = runecount(s.value)
@@ -433,6 +433,10 @@ func verifHashAgree(a, b Object) bool {
 //@ let ni = ite(i0 < 0, size + i0, i0)
 //@ ensures[C16.string.item] result1 == nil ==> typeof(key) == *Int && typeof(result0) == *String && ref(result0) != nil && result0.(*String).value == runeat(s.value, ni)
 //@ ensures[C16.string.item.ok] typeof(key) == *Int ==> (result1 == nil) == (0 <= ni && ni < size)
+// C01 (indexing a string yields the code point at that position, and an index beyond the last code point is an error:
+// the same facts under C01, whose programs index strings - seed C01g took an ASCII byte at the byte offset)
+//@ ensures[C01.string.item] result1 == nil ==> typeof(key) == *Int && typeof(result0) == *String && ref(result0) != nil && result0.(*String).value == runeat(s.value, ni)
+//@ ensures[C01.string.item.ok] typeof(key) == *Int ==> (result1 == nil) == (0 <= ni && ni < size)
 
 // utf8.RuneCountInString(s) is len([]rune(s)) (so that an implementation counting code points without converting
 // still meets the contracts above).
